@@ -911,8 +911,14 @@ where
 
         let (exit_state, exit_reason, was_killed, mut ports) = loop_done??;
 
-        // if we didn't exit in error mode, call `post_stop`
-        if !was_killed {
+        // a signaled (killed) actor runs no `post_stop` and reports no final state,
+        // exactly as when the kill lands in `post_start` or `post_stop`
+        if was_killed {
+            return Err(ActorErr::Cancelled);
+        }
+
+        // we didn't exit in error mode, call `post_stop`
+        {
             match ports
                 .run_with_signal(Box::pin(Self::do_post_stop(
                     myself_clone.clone(),
